@@ -197,6 +197,10 @@ func Yield(site string) {
 	park(t, site, nil, 0)
 }
 
+// SharedRepoLock is set by the C31 harness: the repo lock descriptor is shared by the logical
+// invocations of one process and stays held until the process exits.
+var SharedRepoLock bool
+
 // ExtraYields switches the named extra yield sites (YieldExtra) on.
 var ExtraYields bool
 
